@@ -202,6 +202,36 @@ def build_namespace(hist, labels=None, **kw):
     return ns, taxa, bits
 
 
+def inner_taxa_picks(max_picks=3):
+    """Strategy: which internal nodes (index into the preorder list of internal nodes, 0 = seed) get a taxon of their
+    own.  Empty in two thirds of the draws."""
+    return st.one_of(st.just([]), st.just([]), st.lists(st.integers(0, 40), min_size=1, max_size=max_picks, unique=True))
+
+
+def add_inner_taxa(tree, ns, picks):
+    """Give drawn INTERNAL nodes (0 = the seed) taxa of their own, labelled I<k>, members of `ns` accessioned after
+    everything else (as reading '((A,B)I1,C)I0;' with suppress_internal_node_taxa=False would).  Leaf-based oracles are
+    unaffected: bipartitions, distances, path lengths speak about leaf taxa.  Returns the nodes touched."""
+    if not picks:
+        return []
+    internals = []
+    stack = [tree._seed_node]
+    while stack:
+        nd = stack.pop()
+        if nd._child_nodes:
+            internals.append(nd)
+            stack.extend(reversed(nd._child_nodes))
+    out = []
+    for k, p in enumerate(picks):
+        if not internals:
+            break
+        nd = internals[p % len(internals)]
+        if nd.taxon is None:
+            nd.taxon = ns.require_taxon(label="I%d" % k)
+            out.append(nd)
+    return out
+
+
 def build_tree(spec, ns=None, taxa=None, is_rooted=None, labels=None):
     """Build a DendroPy tree from a spec using only constructors and add_child."""
     import dendropy
